@@ -275,8 +275,8 @@ def run_c07(ctx):
     _, _, _, g, _ = par(mc, pin("YangLexerPinHang.cfg", "Temporal property ParserReturns was violated", "hang at the end of an unquoted word"),
                         pin("YangLexerPinLeak.cfg", "Temporal property NoLeak was violated", "lexer left blocked on its send"), gen, race_build)
     allfiles = vec_files(g["dir"])
-    catfile = [f for f in allfiles if f.endswith("vec_300.ndjson")]
-    files = [f for f in allfiles if not f.endswith("vec_300.ndjson")]
+    catfile = [f for f in allfiles if f.endswith(("vec_300.ndjson", "vec_400.ndjson"))]     # untraced: concatenations, absurd arguments
+    files = [f for f in allfiles if not f.endswith(("vec_300.ndjson", "vec_400.ndjson"))]
 
     def plain(binary, tag, vfiles, env=None, timeout=600):
         """run7 without trace; returns (vectors, results)"""
@@ -302,7 +302,7 @@ def run_c07(ctx):
     # suspects: (vector, signature, what, replay).  Nothing is reported before it has shown again in a solo run, except a
     # worker stopped by the Go runtime or by the race detector (GORACE=halt_on_error=1): that is not a matter of timing.
     suspects = []
-    for tag, vs, rs in (("concatenations", cvecs, cres), ("race-detector", rvecs, rres)):
+    for tag, vs, rs in (("long-and-absurd", cvecs, cres), ("race-detector", rvecs, rres)):
         for v, r in zip(vs, rs):
             if r["verdict"] in ("ok", "skipped"):
                 continue
